@@ -8,7 +8,19 @@ def handlers : List (String × (Json → R Json)) := [
   ("discover", Disc.hDiscover),
   ("ocse", Disc.hOcse),
   ("shuffle_decide", Disc.hShuffleDecide),
-  ("lag_index", Disc.hLagCols)
+  ("lag_index", Disc.hLagCols),
+  ("logistic_step", Syn.hLogisticStep),
+  ("row_normalise", Syn.hRowNormalise),
+  ("linear_series", Syn.hLinearSeries),
+  ("build_a", Syn.hBuildA),
+  ("poisson_rate", Syn.hPoissonRate),
+  ("subnetwork", Lin.hSubnetwork),
+  ("companion", Lin.hCompanion),
+  ("pcmci_to_graph", Graph.hPcmciToGraph),
+  ("graph_to_pcmci", Graph.hGraphToPcmci),
+  ("round_trips", Graph.hRoundTrips),
+  ("export_frame", Graph.hExportFrame),
+  ("export_pcmci", Graph.hExportPcmci)
 ]
 
 def handle (j : Json) : Json :=
